@@ -14,6 +14,19 @@ import (
 
 func init() { register("C04", checkC04) }
 
+// c04SafeKey: the key can be written after a dot in a selector.
+func c04SafeKey(k string) bool {
+	if !c17IsIdent(k) {
+		return false
+	}
+	for _, sk := range c17SafeKeys {
+		if strings.HasPrefix(k, sk) {
+			return true
+		}
+	}
+	return false
+}
+
 type c04Vec struct {
 	H   []c17Val          `json:"h"`
 	Exp c17Val            `json:"exp"`
@@ -198,7 +211,6 @@ func checkC04(c *Ctx) {
 		var v c17DocVec
 		VecDecode([]byte(j.Tag), &v)
 		in := c17NewInst(c.Seed, []byte(j.Tag))
-		in.safe = true
 		in.prealloc(v.Doc)
 		sub := v.Subs[j.N>>2]
 		fam := []string{"doc-root-json", "doc-json-builtin"}[j.N&1]
@@ -234,7 +246,6 @@ func checkC04(c *Ctx) {
 			VecDecode(raw, &v)
 			nv++
 			in := c17NewInst(c.Seed, raw)
-			in.safe = true // selectors address members by key
 			in.prealloc(v.Doc)
 			r := rand.New(rand.NewSource(c17Seed(c.Seed, raw, "doc")))
 			var doc bytes.Buffer
@@ -248,27 +259,36 @@ func checkC04(c *Ctx) {
 			prog := ident[r.Intn(len(ident))]
 			std.Submit(Job{Kind: "run", Prog: prog, Files: files, WantJS: true, Tag: string(raw), N: 0})
 			std.Submit(Job{Kind: "run", Prog: []byte("BEGINFILE { print json($) }"), Files: files, Tag: string(raw), N: 1})
-			var sels [][]string
-			for k := 1; k < len(v.Subs); k++ { // a selector that picks sub-document k
+			sels := make([][]string, len(v.Subs)) // sels[k]: a selector that picks sub-document k (nil: the key has no literal)
+			for k := 1; k < len(v.Subs); k++ {
 				var sel string
 				if v.Doc.Kind == 'a' {
 					sel = fmt.Sprintf("$[%d]", k-1)
 				} else {
 					key := in.key(v.Doc.K[k-1])
-					sel = "$." + key
-					if r.Intn(2) == 0 {
-						sel = "$['" + key + "']"
+					lit, ok := c17StrLit(key)
+					switch {
+					case c04SafeKey(key) && r.Intn(2) == 0:
+						sel = "$." + key
+					case ok:
+						sel = "$[" + lit + "]"
+					default:
+						continue
 					}
 				}
-				sels = append(sels, []string{sel})
+				sels[k] = []string{sel}
 				std.Submit(Job{Kind: "run", Prog: ident[r.Intn(len(ident))], Files: files, Sels: []string{sel}, WantJS: true, Tag: string(raw), N: k << 2})
 			}
 			if nv%binEvery == 0 {
 				k := r.Intn(len(v.Subs))
-				bc := binCase{prog: ident[r.Intn(3)], doc: doc.Bytes(), exp: v.Subs[k].Exp, dev: v.Subs[k].Dev, in: in, tag: string(raw), fam: "bin-doc"}
-				if k > 0 {
-					bc.sels = sels[k-1]
+				if k > 0 && sels[k] == nil {
+					k = 0
 				}
+				bc := binCase{prog: ident[r.Intn(3)], doc: doc.Bytes(), exp: v.Subs[k].Exp, dev: v.Subs[k].Dev, in: in, tag: string(raw), fam: "bin-doc"}
+				if r.Intn(4) == 0 {
+					bc.prog = []byte("") // the empty program, as in `jqawk -r SEL -o f.json '' f.json`
+				}
+				bc.sels = sels[k]
 				binCases = append(binCases, bc)
 			}
 		}})
@@ -350,6 +370,19 @@ func checkC04(c *Ctx) {
 				defer func() { <-sem }()
 				inPath := filepath.Join(dir, fmt.Sprintf("in%d.json", i))
 				outPath := filepath.Join(dir, fmt.Sprintf("out%d.json", i))
+				// -o FILE: a third of the runs write to a fresh path, a third over an existing, much longer
+				// file, a third (file input) over the input file itself; the file must afterwards hold exactly the value
+				var before []byte // content of the target before the run (nil: it does not exist)
+				if mode%2 == 1 {
+					switch variant := (i / 4) % 3; {
+					case variant == 2 && mode == 1:
+						outPath = inPath
+						before = bc.doc
+					case variant >= 1:
+						before = []byte(strings.Repeat("{\"stale\": [\"left over from an earlier, longer result\", 1, 2, 3]}\n", 40+len(bc.doc)/20))
+						os.WriteFile(outPath, before, 0o644)
+					}
+				}
 				var args []string
 				for _, s := range bc.sels {
 					args = append(args, "-r", s)
@@ -369,6 +402,12 @@ func checkC04(c *Ctx) {
 				}
 				br := c.RunBin(args, stdin, dir, 60*time.Second)
 				if br.TimedOut { // reproduce before calling it non-termination (the machine may be loaded)
+					if mode < 2 {
+						os.WriteFile(inPath, bc.doc, 0o644)
+					}
+					if before != nil && outPath != inPath {
+						os.WriteFile(outPath, before, 0o644)
+					}
 					br = c.RunBin(args, stdin, dir, 180*time.Second)
 				}
 				var got []byte
@@ -382,13 +421,20 @@ func checkC04(c *Ctx) {
 				mu.Lock()
 				defer mu.Unlock()
 				rep := func() map[string]any {
-					return map[string]any{"args": args, "program": string(bc.prog), "input": string(bc.doc), "exit": br.Exit, "got": c17Clip(got), "stderr": c17Clip(br.Stderr), "vector": json.RawMessage(bc.tag)}
+					return map[string]any{"args": args, "program": string(bc.prog), "input": string(bc.doc), "target_before": c17Clip(before), "exit": br.Exit, "got": c17Clip(got), "stderr": c17Clip(br.Stderr), "vector": json.RawMessage(bc.tag)}
 				}
 				if br.TimedOut || br.Signaled || hasCrashMarks(br.Stderr) || (br.Exit != 0 && br.Exit != 1) {
 					report(bc.fam, map[string]any{"case": rep(), "why": "the binary crashed or did not terminate"})
 					return
 				}
 				isErr := br.Exit != 0
+				if isErr && before != nil && mode%2 == 1 {
+					if !bytes.Equal(got, before) {
+						report(bc.fam, map[string]any{"case": rep(), "why": "an error was reported but the existing target file was changed"})
+						return
+					}
+					got = nil
+				}
 				if isErr && len(bytes.TrimSpace(got)) != 0 {
 					report(bc.fam, map[string]any{"case": rep(), "why": "an error was reported but output was written as well"})
 					return
